@@ -359,6 +359,7 @@ class Batch:
         self.memo = {}            # probe memo: text -> outcome
         self.pn = 0
         self.flavor = PROBE_FLAVOR
+        self._var_seen = set()
         self.subst = {}           # id(item) -> replacement item (a chain truncated before the element under study)
 
     # -- dependencies
@@ -525,6 +526,19 @@ class Batch:
                 self.probe([red], extra_support)
                 if self.outcome(red)[0] != "ok":
                     n = red
+        if n[0] == "ref" and n[1] in ("const", "constexpr", "sconst"):
+            # a reference to a const variable fails.  Variables are not judged themselves (the database stores no
+            # integer for them), so look at the variable's own initializer first: if that already fails as a plain
+            # enumerator, it -- not the reference -- is the minimal witness (e.g. `constexpr int k = char(x);`:
+            # a cast to char is one of the accepted unevaluated constructs)
+            var = self.byname.get(n[2])
+            if var is not None and var.get("k") == "var" and var.get("node") is not None and \
+                    n[2] not in self._var_seen:
+                self._var_seen.add(n[2])
+                mn, mo = self.minimise(var["node"], extra_support)
+                self._var_seen.discard(n[2])
+                if mn is not None:
+                    return mn, mo
         return n, self.outcome(n)
 
     def enum_witness(self, node):
